@@ -126,6 +126,16 @@ def M5():
     )
 
 
+def M5C():
+    """chain of three junctions j1 -> j2 -> j3 listed in the framework as j3, j2, j1 (the execution order must come from the graph)"""
+    return dict(
+        name="M5C",
+        comps=[dict(name="a", default=100), dict(name="j3", junction="y"), dict(name="j2", junction="y"), dict(name="j1", junction="y", setup=True, default=12), dict(name="x", default=1), dict(name="y", default=2), dict(name="z", default=3)],
+        pars=[dict(name="aj", format="probability", default=0.4), dict(name="p12", format="proportion", default=0.7), dict(name="p1x", format="proportion", default=0.3), dict(name="p23", format="proportion", default=0.5), dict(name="p2y", format="proportion", default=0.5), dict(name="p3z", format="proportion", default=0.8), dict(name="p3x", format="proportion", default=0.2), dict(name="back", format="rate", default=0.1)],
+        transitions={("a", "j1"): "aj", ("j1", "j2"): "p12", ("j1", "x"): "p1x", ("j2", "j3"): "p23", ("j2", "y"): "p2y", ("j3", "z"): "p3z", ("j3", "x"): "p3x", ("x", "a"): "back", ("y", "a"): "back", ("z", "a"): "back"},
+    )
+
+
 def M5F():
     """junction whose outflow proportion is a *function* of the model state (the initial flush must use the function value at t0,
     not the databook default): a -> j -> (b via pb = 0.25 + 1e-6*a, c via pc)"""
@@ -229,6 +239,30 @@ def M10():
     )
 
 
+def M10F():
+    """function parameters that depend on flows (annualised sum over every matching link): by parameter, by pair, by destination"""
+    return dict(
+        name="M10F",
+        comps=[dict(name="sus", default=900), dict(name="inf", default=100), dict(name="dead", sink="y")],
+        pars=[
+            dict(name="foi", format="probability", default=0.2),
+            dict(name="mort", format="rate", default=0.1),
+            dict(name="deaths", format="number", function="mort:flow"),
+            dict(name="newinf", format="number", function="sus:inf"),
+            dict(name="alldeaths", format="number", function=":dead*2"),
+        ],
+        transitions={("sus", "inf"): "foi", ("sus", "dead"): "mort", ("inf", "dead"): "mort"},
+    )
+
+
+def M7F():
+    """timed compartment whose duration is a framework *function* of another parameter (2*base = 1.0 y; its own default differs)"""
+    d = M7()
+    d["name"] = "M7F"
+    d["pars"] = [dict(name="base", format="number", default=0.5, databook=True)] + [dict(p, function="2*base", default=0.25, databook=False) if p["name"] == "dur" else p for p in d["pars"]]
+    return d
+
+
 def M12():
     """program-targeted parameters: number, probability, proportion (via a junction)"""
     return dict(
@@ -245,4 +279,14 @@ def M12():
     )
 
 
-CATALOGUE = dict(M1=M1, M2=M2, M4=M4, M5=M5, M5F=M5F, M5R=M5R, M6=M6, M7=M7, M8=M8, M8J=M8J, M8R=M8R, M8B=M8B, M10=M10, M12=M12)
+def M12c():
+    """M12 plus a chain of function parameters hanging from a program-targeted one: loss -> lossy = 2*loss -> rel = 0.05*lossy (drives lost -> dx)"""
+    d = M12()
+    d["name"] = "M12c"
+    d["pars"] = d["pars"] + [dict(name="lossy", format="number", function="2*loss"), dict(name="rel", format="probability", function="0.05*lossy")]
+    d["transitions"] = dict(d["transitions"])
+    d["transitions"][("lost", "dx")] = "rel"
+    return d
+
+
+CATALOGUE = dict(M1=M1, M2=M2, M4=M4, M5=M5, M5C=M5C, M5F=M5F, M5R=M5R, M6=M6, M7=M7, M8=M8, M8J=M8J, M8R=M8R, M8B=M8B, M10=M10, M10F=M10F, M7F=M7F, M12=M12, M12c=M12c)
